@@ -160,6 +160,33 @@ def ed25519Base : Base (Fq ed25519.n) (EE ed25519) :=
 
 def ed25519Suite : Suite (Fq ed25519.n) (EE ed25519) := Suite.ofBase ed25519Base
 
+/-- `Ed448Group::deserialize`: `decompress_unchecked` (the 7 low bits of the last byte and a
+    non-reduced `y` are not looked at here), then identity, torsion and — last — the canonical
+    re-encoding check, in the code's order (which fixes the error variant). -/
+def ed448Decompress (b : Bytes) : Option EPoint :=
+  let p := p448
+  let sign := (b.getD 56 0).toNat >>> 7
+  let y := leToNat (b.take 56) % p
+  let u := subMod (y * y) 1 p
+  let w := negMod (39081 * y * y + 1) p
+  let x := powMod u 3 p * w * powMod (powMod u 5 p * powMod w 3 p) ((p - 3) / 4) p % p
+  if w * x * x % p != u then none
+  else some ⟨if (x &&& 1) != sign then negMod x p else x, y⟩
+
+/-- the checks after decompression, in the code's order -/
+def ed448Finish (P : EPoint) (b : Bytes) : Except (Err (Fq ed448.n)) (EE ed448) :=
+  if P == ⟨0, 1⟩ then .error .GroupInvalidIdentityElement
+  else if ed448.mul L448 P != ⟨0, 1⟩ then .error .GroupInvalidNonPrimeOrderElement
+  else if ed448Enc P != b then .error .GroupMalformedElement
+  else .ok ⟨P⟩
+
+def ed448DecE (b : Bytes) : Except (Err (Fq ed448.n)) (EE ed448) :=
+  if b.length != 57 then .error .GroupMalformedElement
+  else
+    match ed448Decompress b with
+    | none => .error .GroupMalformedElement
+    | some P => ed448Finish P b
+
 def ed448Base : Base (Fq ed448.n) (EE ed448) :=
   let ctx := strBytes "FROST-ED448-SHAKE256-v1"
   let hs := fun (tag : String) (m : Bytes) => wideLE ed448.n (shake256 (ctx ++ strBytes tag ++ m) 114)
@@ -179,11 +206,7 @@ def ed448Base : Base (Fq ed448.n) (EE ed448) :=
     scalarLen := 57
     leBytes := fun s => natToLE s.val 57
     encElem := fun e => if e.pt = ⟨0, 1⟩ then none else some (ed448Enc e.pt)
-    decElem := fun b =>
-      if b = ed448Enc ⟨0, 1⟩ then .error .GroupInvalidIdentityElement
-      else match ed448Dec b with
-        | some P => .ok ⟨P⟩
-        | none => .error .GroupMalformedElement
+    decElem := ed448DecE
     elemLen := 57
     randomScalar := randomWide ed448.n 114
     idLt := fun a b => a.val < b.val }
